@@ -185,6 +185,22 @@ func c09Scenarios(tier string) []*world.Scenario {
 		}
 		out = append(out, sc)
 	}
+	// one backend read carries a complete reply followed by the first bytes of the next one (replies cut into two
+	// segments; how many segments a read carries is an enumerated choice)
+	for _, p := range [][]string{{"FA", "FA"}, {"FA", "FA", "FA"}, {"M2", "FA"}, {"FA", "M2"}, {"FB", "FA", "FB", "FA"}} {
+		for _, cut := range []int{1, 4} {
+			b := 2
+			if tier == "thorough" {
+				b = 4
+			}
+			sc := c09Scenario(p, b)
+			sc.ReplyCuts = []int{cut}
+			sc.CoalesceChoice, sc.FreeKinds = true, []string{"coalesce"}
+			sc.Family = "open-loop-partial-successor"
+			sc.Name += fmt.Sprintf("/reply-cut%d/coalesce-choice", cut)
+			out = append(out, sc)
+		}
+	}
 	// a sender that never pauses (its socket always holds at least two read buffers' worth until 60 requests are out)
 	for _, shape := range []string{"get", "get+ping", "mget"} {
 		b := 2
@@ -350,6 +366,41 @@ func c10Scenarios(tier string) []*world.Scenario {
 			return vs
 		}
 		out = append(out, sc)
+	}
+	// the node's connection is lost at every point (before the queued requests are written, between them, after): the
+	// requests may fail (C15 decides that they are answered) but whatever reaches the node - on the old or on a new
+	// connection - arrives in the order sent, and an acknowledged write is seen by the read behind it
+	for _, kind := range []string{"backend-close", "backend-rst"} {
+		for _, afterW := range []int{0, 1} {
+			sc := c10Scenario(fmt.Sprintf("backend-loss/%s/afterW%d/set-get-set-get", kind, afterW),
+				[][]Req{{set(a0, "x0"), get(a0, "x0"), set(a1, "x1"), get(a1, "x1")}},
+				[][]rd{{{"set", []string{a0}, "x0"}, {"get", []string{a0}, ""}, {"set", []string{a1}, "x1"}, {"get", []string{a1}, ""}}}, 3)
+			sc.Family = "backend-loss"
+			sc.Faults = []world.Fault{{Kind: kind, Addr: AddrA, AfterW: afterW}}
+			var all []byte
+			for _, ch := range sc.Clients[0].Chunks {
+				all = append(all, ch.Data...)
+			}
+			sc.Clients[0].Chunks = []world.Chunk{{Data: all}}
+			base := sc.Check
+			sc.Check = func(w *world.World) []world.Violation {
+				var vs []world.Violation
+				for _, v := range base(w) {
+					if v.Sig == "per-node-order-violated" {
+						vs = append(vs, v)
+					}
+				}
+				c := w.Clients[0]
+				rs, _, _ := world.SplitReplies(c.Received)
+				for j := 0; j+1 < len(rs) && j+1 < len(c.Spec.Expect); j += 2 {
+					if bytes.Equal(rs[j], []byte(world.ROK)) && !world.IsError(rs[j+1]) && !bytes.Equal(rs[j+1], c.Spec.Expect[j+1]) {
+						vs = append(vs, world.Violation{Sig: "read-missed-own-write", Msg: fmt.Sprintf("request %d (SET) was acknowledged +OK, the GET of the same key pipelined behind it returned %q", j, rs[j+1])})
+					}
+				}
+				return vs
+			}
+			out = append(out, sc)
+		}
 	}
 	// another client is closed for invalid input in the same loop batch in which its valid first request was routed
 	{
@@ -549,11 +600,11 @@ func c07Scenarios(tier string) []*world.Scenario {
 
 func init() {
 	register(&Check{ID: "C09", Level: "model_checking",
-		Rule:      "one open-loop client sending 2-4 forwarded requests (GET@A, GET@B, MGET split A+B) in separate chunks, also as a slow reader whose flushes meet EAGAIN / short writes; every interleaving of client reads, task runs and backend reply deliveries within the bound; the invariant 'replies of requests 1..m read by the proxy => client has >= m replies' is evaluated at EVERY quiescent point (epoll_wait entry); a never-pausing sender (socket topped up after every read of the proxy until 60 requests are out; GET / GET+PING / split MGET): per loop round the proxy takes in at most 4 read buffers of it before it returns to the poller, and all 60 replies arrive in order; non-trivial = >= 1 deviation from the synchronous schedule; distinct = distinct observable outcomes",
+		Rule:      "one open-loop client sending 2-4 forwarded requests (GET@A, GET@B, MGET split A+B) in separate chunks, also as a slow reader whose flushes meet EAGAIN / short writes; every interleaving of client reads, task runs and backend reply deliveries within the bound; the invariant 'replies of requests 1..m read by the proxy => client has >= m replies' is evaluated at EVERY quiescent point (epoll_wait entry); the same with every reply cut in two segments and a backend read carrying any number of ready segments (a complete reply followed by a partial successor); a never-pausing sender (socket topped up after every read of the proxy until 60 requests are out; GET / GET+PING / split MGET): per loop round the proxy takes in at most 4 read buffers of it before it returns to the poller, and all 60 replies arrive in order; non-trivial = >= 1 deviation from the synchronous schedule; distinct = distinct observable outcomes",
 		Scenarios: c09Scenarios, BudgetQuick: 90, BudgetThorough: 1200,
 		Assumptions: []string{"'promptly' is decided in logical time: before the event loop next blocks", "'not starved' is decided in logical form: bounded intake per loop round from a sender that never pauses (the poller, which serves completed replies, is reached again after <= 4 read buffers)", "simulated kernel; stateless node model"}})
 	register(&Check{ID: "C10", Level: "model_checking",
-		Rule:      "1-3 clients whose pipelines (SET/GET/MSET/MGET/DEL on keys of one node, incl. two fragments of one request on the same node) all land on node A's single connection; a slow node whose backlog is drained in pieces; another client closed for invalid input in the loop batch that routed its valid request; stateful node model; every interleaving within the bound; oracle: per (client,node) command order = send order, and reads observe the preceding writes; non-trivial = >= 1 deviation; distinct = observable outcomes; plus: password configured, so that further requests are routed while the AUTH reply of the cold connection is still outstanding",
+		Rule:      "1-3 clients whose pipelines (SET/GET/MSET/MGET/DEL on keys of one node, incl. two fragments of one request on the same node) all land on node A's single connection; a slow node whose backlog is drained in pieces; another client closed for invalid input in the loop batch that routed its valid request; stateful node model; every interleaving within the bound; oracle: per (client,node) command order = send order, and reads observe the preceding writes; non-trivial = >= 1 deviation; distinct = observable outcomes; plus: password configured, so that further requests are routed while the AUTH reply of the cold connection is still outstanding; plus: the node's connection is lost (FIN / RST) before the queued requests are written and after the first one, order judged over old and new connection together",
 		Scenarios: c10Scenarios, BudgetQuick: 90, BudgetThorough: 1200,
 		Assumptions: []string{"server_connections = 1 as the property states", "replication inside a replica set is instantaneous in the node model"}})
 	register(&Check{ID: "C07", Level: "model_checking",
